@@ -153,9 +153,9 @@ def run(c):
         return
 
     # ---- 1. decision table: refinement I => P on every cell, oracle self-check ---------------------
-    # quick: every pair of mutations; thorough: additionally every triple of mutations of the security-relevant
-    # fields (cfg, kid, alg, sig, ver, aud, exp, nbf)
-    plans = [(2, 3)] + ([(3, 1)] if thorough else [])
+    # quick: every pair of mutations; thorough: additionally every triple made of any mutation followed by two
+    # mutations of the security-relevant fields (cfg, kid, alg, sig, ver, aud, exp, nbf)
+    plans = [(2, 3)] + ([(3, 2)] if thorough else [])
     cells, meta = [], []
     for pi, (depth, hotfrom) in enumerate(plans):
         r = c.tlc(SD, "MC_SnapToken", cfg=cfg(c, "mc_gen_%d.cfg" % pi, MC_TMPL.format(nbf="TRUE", depth=depth, hotfrom=hotfrom, gen="TRUE")),
@@ -261,6 +261,17 @@ def run(c):
               "either", [], None, None, {"got": row["got"], "http": row["http"], "reg": row["reg"], "token": row["token"]}, "record", st2)
     if decided < n // 20:
         c.fail_tool("vacuous trace: only %d of %d recorded strings decided by the P-layer" % (decided, n))
+    # binding self-check (S6): a corrupted observation must be flagged by the trace specification
+    acc = next((x for x in cells if x["must"] == "accept"), None)
+    rej = next((x for x in cells if x["must"] == "reject" and x["why"] == ["expired"]), None)
+    if acc and rej:
+        bad = os.path.join(c.work, "trace_corrupted.ndjson")
+        write_ndjson(bad, [{"ev": "meta"}, {"ev": "tok", "i": 0, "case": acc["case"], "got": "VerificationFailed"},
+                           {"ev": "tok", "i": 1, "case": rej["case"], "got": "ok"}])
+        rb = c.tlc(SD, "Trace_SnapToken", mode="trace", env={"TRACE": bad}, timeout=900)
+        kinds = sorted(p_["kind"] for p_ in c.printed_json(rb, "PV"))
+        if kinds != ["accepted", "rejected-valid"]:
+            c.fail_tool("oracle self-check failed: Trace_SnapToken flagged %s on a trace with one wrongly refused and one wrongly accepted token" % kinds)
     c.cov["traces_validated_against_impl"] = res["n"]
     c.cov["evaluations"] += res["n"]
     c.cov["trace_stats"] = dict(res, decided_by_P=decided)
